@@ -22,6 +22,10 @@ FILES = {
     # extension-less scripts: their language is decided by content (shebang), not by the path
     "deploy": "#!/bin/sh\n# wrapper around the python tooling\necho deploying\n",
     "runner": "#!/usr/bin/env python3\ndef price(q):\n    print(q)\n    return q * 4801\n",
+    # findings suppressed by an inline directive; the edit removes the directive (and the other way round for bare.py)
+    "strg3.py": "def check_stage(stage):\n    if stage in (\"staging\", \"production\"):  # thailint: ignore[stringly-typed]\n        return 2\n    return 3\n",
+    "hushed.py": "def fee(q):\n    return q * 6113  # thailint: ignore[magic-numbers]\n",
+    "bare.py": "def toll(q):\n    return q * 7219\n",
     "scanner.py": "import regex as rx\n\n\ndef scan(items):\n    out = []\n    for it in items:\n        if rx.search('a+', it):\n            out.append(it)\n    return out\n",
 }
 VARIANTS = {
@@ -29,6 +33,9 @@ VARIANTS = {
     "strg2.py": "def check_mode(mode):\n    return mode is not None\n",
     "magic.py": "def price(q):\n    return q\n",
     "scanner.py": "def scan(items):\n    return list(items)\n",
+    "strg3.py": "def check_stage(stage):\n    if stage in (\"staging\", \"production\"):\n        return 2\n    return 3\n",
+    "hushed.py": "def fee(q):\n    return q * 6113\n",
+    "bare.py": "def toll(q):\n    return q * 7219  # thailint: ignore[magic-numbers]\n",
     "deploy": "#!/usr/bin/env python3\ndef cost(q):\n    print(q)\n    return q * 5903\n",
     "runner": "#!/bin/sh\necho running\n",
 }
@@ -125,7 +132,7 @@ def make_h_history(nsteps, quick=False):
                         linter.lint(d / "src" / f)
                     op += ":" + f
                 elif op == "edit":
-                    f = ctx.pick(f"file{step}", tuple(VARIANTS) if not quick else ("dup2.py", "scanner.py", "deploy", "runner"))
+                    f = ctx.pick(f"file{step}", tuple(VARIANTS) if not quick else ("dup2.py", "scanner.py", "deploy", "runner", "strg3.py", "hushed.py"))
                     if (d / "src" / f).exists():
                         (d / "src" / f).write_text(VARIANTS[f])
                     op += ":" + f
